@@ -1,6 +1,6 @@
 """C08 — retry budget never grants more retries than it was funded."""
 from ..core import graph, peel, leaves, show
-from ..util import dominating_edges
+from ..util import dominating_edges, cmp_on_edge
 from ..atomic import atomic_fields, check_word, sites, atomic_method, word_of, loads_in, CAS
 
 EXPLANATION = (
@@ -195,6 +195,66 @@ def run(facts, tr, rep):
                             ok = True
                             detail = "subtracting CAS is dominated by the guard observed >= amount (%s)" % g.where(bb)
             rep.ob("C08.GUARD", "%s|%s|cas" % (W.crate.name, W.def_), ok, cs.where(), detail)
+        # ... the same for a withdrawal written as `fetch_update(|cur| ..)`: the closure answers Some(cur - amount) only
+        # under cur >= amount (or hands back `cur.checked_sub(amount)`); `cur > 0` with a saturating subtraction grants a
+        # full-price retry for a partial balance
+        for (_b, cs, m) in cas_sites:
+            if m not in ("fetch_update", "try_update"):
+                continue
+            clo = peel(tr.expand(tr.operand(W, cs.args[-1], cs.loc)))
+            child = None
+            if clo[0] == "agg":
+                _cb, rvc = tr.agg_of(clo)
+                child = facts.bodies.get(rvc.get("def")) if rvc.get("ak") == "closure" else None
+            if child is None:
+                rep.ob("C08.GUARD", "%s|%s|fetch_update" % (W.crate.name, W.def_), False, cs.where(), "the update function of the withdrawal is not a closure of this crate")
+                continue
+            rep.saw(child)
+            gc = graph(child)
+            okg, detail = True, "the update closure subtracts the cost only under observed >= cost"
+            nsome = 0
+            from ..util import ret_assigns as _ra2
+            for (i, j, node0) in _ra2(tr, child):
+                for node in [peel(x) for x in leaves(node0)]:
+                    if node[0] == "call" and tr.call_of(node).name == "checked_sub":
+                        nsome += 1
+                        continue          # Some exactly when observed >= cost
+                    if node[0] != "agg":
+                        okg, detail = False, "the update closure returns %s" % show(node)[:60]
+                        continue
+                    b2, rv2 = tr.agg_of(node)
+                    if rv2.get("variant") != "Some":
+                        continue
+                    nsome += 1
+                    v = peel(tr.expand(tr.operand(b2, rv2["ops"][0], (node[3], node[4])), upvars=True))
+                    vv = v
+                    while vv[0] in ("field", "downcast"):
+                        vv = peel(vv[1])
+                    cur = amt = None
+                    if vv[0] == "binop" and vv[1].startswith("Sub"):
+                        cur, amt = peel(vv[2]), peel(vv[3])
+                    elif vv[0] == "call" and tr.call_of(vv).name in ("saturating_sub", "wrapping_sub", "checked_sub", "sub") and len(tr.call_of(vv).args) == 2:
+                        cc = tr.call_of(vv)
+                        cur, amt = [peel(tr.expand(tr.operand(cc.g.b, a, cc.loc), upvars=True)) for a in cc.args]
+                        if cc.name == "checked_sub" and v[0] == "field":
+                            continue      # payload of checked_sub's Some: guarded by construction
+                    if cur is None:
+                        okg, detail = False, "the new balance %s is not `observed - cost`" % show(v)[:60]
+                        continue
+                    guarded = False
+                    for e in dominating_edges(tr, child, node[3]):
+                        if e["kind"] != "bool":
+                            continue
+                        cm = cmp_on_edge(tr, e)
+                        if cm is None:
+                            continue
+                        op, x, y = cm[0], peel(tr.expand(cm[1], upvars=True)), peel(tr.expand(cm[2], upvars=True))
+                        if (op == "Ge" and x == cur and y == amt) or (op == "Le" and y == cur and x == amt):
+                            guarded = True
+                    if not guarded:
+                        okg, detail = False, ("the update closure answers Some(%s) without the guard observed >= cost: a balance below the cost still buys a retry"
+                                              % show(v)[:50])
+            rep.ob("C08.GUARD", "%s|%s|fetch_update" % (W.crate.name, W.def_), okg and nsome > 0, cs.where(), detail if nsome else "the update closure never answers Some")
         # deposit: written value is min(_, cap)
         gd = graph(dp)
         nd = 0
